@@ -901,8 +901,12 @@ def check_C18(ctx):
         if ctx.time_left() < 8:
             break
         names = [chr(ord('a') + i) for i in range(rng.randint(2, 4))]
+        if k % 4 == 3:
+            # ten or more levels: labels, ranks and node names with two digits
+            from checks_core import WIDE_NAMES
+            names = rng.sample(WIDE_NAMES, rng.randint(10, 12))
         h = History(ctx, names)
-        for _ in range(rng.randint(15, 60)):
+        for _ in range(rng.randint(15, 60) + (40 if len(names) > 4 else 0)):
             r = rng.random()
             if r < 0.45 and len(h.pool) > 2:
                 roots = [h.pick() for _ in range(rng.randint(1, 2))]
@@ -914,6 +918,19 @@ def check_C18(ctx):
                     ok = ans == 'ok ' + ','.join(map(str, sorted(reach)))
                 else:
                     ok = ans.startswith('ok') and {u for u, _ in parse_graph(ans)[0]} == reach
+                    if ok:
+                        # levels and edges exactly those of the stored nodes
+                        gn, ge = parse_graph(ans)
+                        bb = h.b
+                        ok = all(l == bb._succ[u][0] for u, l in gn)
+                        want_e = set()
+                        for u in reach:
+                            if u == 1:
+                                continue
+                            _i, lo, hi = bb._succ[u]
+                            want_e.add((u, abs(lo), False, lo < 0))
+                            want_e.add((u, abs(hi), True, hi < 0))
+                        ok = ok and set(ge) == want_e
                 if not ok:
                     ctx.violation(f'{op} wrong after a history', dict(
                         roots=roots, got=ans[:300], lines=list(h.s.lines), tags=dict(call=op + '-history')))
